@@ -79,6 +79,12 @@ pub struct Sc {
     pub cfg: Cfg,
     pub hash_backend: bool,
     pub kind: Kind,
+    /// closed-diagram runs: inside the same simulated execution (same thread, same worker pool) a
+    /// sibling diagram - one T phase moved by pi/2 - is decomposed first with the same
+    /// configuration and its result discarded; per-thread or per-worker state that survives a
+    /// decomposition must not reach the next one
+    #[serde(default)]
+    pub warm: bool,
 }
 
 #[derive(Clone, Copy)]
@@ -598,7 +604,22 @@ impl C05 {
             };
             let g2 = g.clone();
             let cfg = sc.cfg.clone();
-            let (res, core) = with_sim(core, move || run_cfg(&g2, &cfg, parallel, false));
+            let warm_g: Option<G> = if sc.warm {
+                let mut w = sc.g.clone();
+                if let Some(v) = w.verts.iter_mut().find(|v| v.0 != 0 && v.2 == 4) {
+                    v.1 = (v.1 + 2).rem_euclid(8);
+                }
+                out.probe("warm_up_decomposition_before");
+                Some(w.build())
+            } else {
+                None
+            };
+            let (res, core) = with_sim(core, move || {
+                if let Some(w) = &warm_g {
+                    let _ = run_cfg(w, &cfg, parallel, false);
+                }
+                run_cfg(&g2, &cfg, parallel, false)
+            });
             fold_stats(out, &core.stats, tag);
             let st = core.stats.clone();
             dec = core.dec;
@@ -729,7 +750,7 @@ impl Property for C05 {
         "exploration"
     }
     fn rule(&self) -> String {
-        "decider builds a closed graph-like Clifford+T diagram (Erdos-Renyi, planted cats with 0/pi hub, phase gadgets sharing neighbourhoods, planted T-pair shape, isolated T spiders, disjoint unions; or <b|C|0..0> of a random Clifford+T(+CCZ) circuit), a configuration (driver x simp level x split x history) and then, while the run proceeds, every ambient RNG draw of the random drivers, every hash key of the dynamic-T driver, and for the parallel executions the worker count W in 1..16, the order of the tasks of every fork-join region and their workers. Each scenario is executed sequentially and in parallel under two schedules. Oracle: exact Z[omega] evaluator of the closed diagram; per-step conservation (sum of terms = diagram, product of components = diagram); sequential/parallel twin. The saved-terms sub-batch runs the two-stage history (decompose_until_depth(1..4), then decompose) in half of its runs. Non-trivial: T-count >= 1, >= 1 decomposition step, and a fork-join region with >= 2 tasks in a parallel execution. Distinct by (scenario digest, event digest incl. decision trace, schedules and results). Sub-batches saved (open diagrams, saved Clifford terms summed) and one_step (apply_decomp on embedded sites).".into()
+        "decider builds a closed graph-like Clifford+T diagram (Erdos-Renyi, planted cats with 0/pi hub, phase gadgets sharing neighbourhoods, planted T-pair shape, isolated T spiders, disjoint unions; or <b|C|0..0> of a random Clifford+T(+CCZ) circuit), a configuration (driver x simp level x split x history) and then, while the run proceeds, every ambient RNG draw of the random drivers, every hash key of the dynamic-T driver, and for the parallel executions the worker count W in 1..16, the order of the tasks of every fork-join region and their workers. Each scenario is executed sequentially and in parallel under two schedules. Oracle: exact Z[omega] evaluator of the closed diagram; per-step conservation (sum of terms = diagram, product of components = diagram); sequential/parallel twin. A quarter of the closed-diagram runs decompose a sibling diagram (one T phase moved) first, inside the same simulated execution (same thread, same worker pool), and discard its result. The saved-terms sub-batch runs the two-stage history (decompose_until_depth(1..4), then decompose) in half of its runs. Non-trivial: T-count >= 1, >= 1 decomposition step, and a fork-join region with >= 2 tasks in a parallel execution. Distinct by (scenario digest, event digest incl. decision trace, schedules and results). Sub-batches saved (open diagrams, saved Clifford terms summed) and one_step (apply_decomp on embedded sites).".into()
     }
     fn assumptions(&self) -> Vec<String> {
         vec![
@@ -822,6 +843,7 @@ impl Property for C05 {
                     cfg: gen_cfg(d, true),
                     hash_backend,
                     kind: Kind::Circuit(c, bits),
+                    warm: false,
                 }
             }
             "saved" => {
@@ -851,6 +873,7 @@ impl Property for C05 {
                     cfg: Cfg { driver, simp: d.choose("s.simp", 3) as u8, split: false, hist: if d.coin("s.hist", 1, 2) { Hist::UntilDepth(1 + d.choose("s.depth", 4) as i64) } else { Hist::Decompose } },
                     hash_backend,
                     kind: Kind::Saved,
+                    warm: false,
                 }
             }
             "one_step" => {
@@ -924,11 +947,12 @@ impl Property for C05 {
                     cfg: Cfg { driver: Drv::BssT(false), simp: 0, split: false, hist: Hist::Decompose },
                     hash_backend,
                     kind: Kind::OneStep(kind.to_string(), verts),
+                    warm: false,
                 }
             }
             _ => {
                 let (g, fam) = gen::closed_diagram(d, 14, tmax);
-                Sc { g, family: fam.into(), cfg: gen_cfg(d, false), hash_backend, kind: Kind::Closed }
+                Sc { g, family: fam.into(), cfg: gen_cfg(d, false), hash_backend, kind: Kind::Closed, warm: d.coin("warm", 1, 4) }
             }
         }
     }
@@ -954,6 +978,9 @@ impl Property for C05 {
 
     fn shrink(&self, sc: &Sc) -> Vec<Sc> {
         let mut c = vec![];
+        if sc.warm {
+            c.push(Sc { warm: false, ..sc.clone() });
+        }
         if let Kind::Circuit(circ, bits) = &sc.kind {
             for i in 0..circ.gates.len() {
                 let mut cc = circ.clone();
